@@ -231,7 +231,7 @@ Proof. intros H. destruct (emit_shape _ _ _ _ _ _ _ _ H) as (a & tx & k & ->). r
 
 (* ------------------------------------------------------------------ emitted documents are valid *)
 Definition dtext (t : dty) (dflt : option sval) : option text :=
-  match dflt, leaf_base_of t with Some v, Some b => Some (pr_text b v) | _, _ => None end.
+  match dflt, leaf_base_of t with Some v, Some b => Some (schema_text b v) | _, _ => None end.
 Lemma default_text_dtext f : default_text f = dtext (fl_ty f) (fl_default f).
 Proof. reflexivity. Qed.
 
@@ -257,6 +257,9 @@ Section Emitted.
   Hypothesis H_leaf : forall st v,
     In (DLeaf st) (tys_of U) -> wf_stype st = true -> leaf_conf st v = true -> extra v = true ->
     exists s, pr_leaf (st_base st) v = Ok s /\ st_simple_ok pat olex st s = true.
+  Hypothesis H_literal : forall st v,
+    In (DLeaf st) (tys_of U) -> wf_stype st = true -> leaf_conf st v = true -> extra v = true ->
+    st_simple_ok pat olex st (schema_text (st_base st) v) = true.
   Hypothesis H_defaults : forall cl f d, In cl U -> In f (k_own cl) -> fl_default f = Some d -> extra d = true.
 
   Definition velem_m (m : nat) (d : edecl) (c : xnode) : bool :=
@@ -879,8 +882,7 @@ Section Emitted.
     unfold st_elem_ok, dtext. cbn [leaf_base_of].
     destruct s as [|c r].
     - destruct dflt as [d|]; [|exact Hok].
-      destruct (Hd d eq_refl) as [Hlc' Hex']. destruct (H_leaf st d Hin Hw Hlc' Hex') as (sd & Hsd & Hokd).
-      unfold pr_text. rewrite Hsd. exact Hokd.
+      destruct (Hd d eq_refl) as [Hlc' Hex']. exact (H_literal st d Hin Hw Hlc' Hex').
     - destruct dflt; exact Hok.
   Qed.
 
